@@ -42,7 +42,7 @@ def map_groups(g, f):
         elif k == "graph":
             els.append(["graph", x[1], map_groups(x[2], f)])
         elif k == "sub":
-            els.append(["sub", x[1], x[2], map_groups(x[3], f)])
+            els.append(["sub", x[1], x[2], map_groups(x[3], f)] + list(x[4:]))
         elif k == "group":
             els.append(map_groups(x, f))
         elif k == "filter":
@@ -138,7 +138,7 @@ def rename_ast(q, ren):
             elif k == "graph":
                 els.append(["graph", rt(x[1]), rg(x[2])])
             elif k == "sub":
-                els.append(["sub", x[1], sorted(rv(v) for v in x[2]), rg(x[3])])
+                els.append(["sub", x[1], sorted(rv(v) for v in x[2]), rg(x[3])] + list(x[4:]))
             elif k == "group":
                 els.append(rg(x))
             elif k == "filter":
@@ -224,12 +224,14 @@ def c_group(base, vs, same, kind):
     return ("{| g_base := " + base + "; g_vars := " + clist(vs) + f"; g_same := {cN(same)}; g_kind := {kind} |}}")
 
 
-def gen_select_base(c04suite, rng, i):
+def gen_select_base(c04suite, rng, i, allow_offset=False):
     while True:
         b = c04suite.gen(rng, i)
-        if b["form"] == "select" and not b.get("offset"):
+        if b["form"] == "select" and (allow_offset or not b.get("offset")):
             break
-    b["proj"] = None
+    b.pop("ns", None)
+    if not b.get("offset"):
+        b["proj"] = None        # an OFFSET case keeps its projection onto an unbound variable: only the NUMBER of rows is defined
     return b
 
 
@@ -255,7 +257,12 @@ class C15(Suite):
     # case = {"base": c04case (SELECT [DISTINCT] *), "perm": q, "swap": q, "ren": {"map": {v: w}, "q": q},
     #         "init": None | {"var": v, "term": t}}
     def gen(self, rng, i):
-        b = gen_select_base(self.base, rng, i)
+        b = gen_select_base(self.base, rng, i, allow_offset=True)
+        if rng.random() < 0.08:
+            # a sub-SELECT with OFFSET (no LIMIT) next to a pattern that shares its variable: written pattern-first
+            # and sub-SELECT-first (the swap), shuffled, renamed - the number of solutions must not change
+            b = self.base.gen_offset({"rng": rng, "subs": sorted(rng.sample([1, 2, 3], rng.choice([2, 3]))),
+                                      "objs": sorted(rng.sample([1, 2, 10, 11, 12], 3))})
         q = b["q"]
         nv = max([abs(v) for v in _all_vars(q)] + [1])
         vs = list(range(1, nv + 2))
@@ -557,11 +564,33 @@ class C15Same(Suite):
               _q(store, "PREFIX x: <http://e/> PREFIX : <http://e/> SELECT " + mod + "* WHERE " + _prefixed(b["q"], "x:", ":"))]
         for st in self.backends(b):
             ga.append(_q(st, text))
+        # the same text with a prefix that the text does not declare: bound on the queried graph / given as initNs,
+        # each time after the SAME text has been posed with that prefix standing for another namespace
+        t_e = "SELECT " + mod + "* WHERE " + _prefixed(b["q"], "e:", "e:")
+        decoy = Graph()
+        decoy.bind("e", "http://decoy.example/")
+        decoy.add((URIRef("http://decoy.example/a"), URIRef("http://decoy.example/p"), URIRef("http://decoy.example/b")))
+        _q(decoy, t_e)
+        store.bind("e", "http://e/")
+        ga.append(_q(store, t_e))
+        t_v = "SELECT " + mod + "* WHERE " + _prefixed(b["q"], "voc:", "voc:")
+        _q(decoy, t_v, initNs={"voc": "http://decoy.example/"})
+        ga.append(_q(store, t_v, initNs={"voc": "http://e/"}))
         # group B: DISTINCT = REDUCED (as sets) = the plain answer de-duplicated by the harness
         gb = [_q(store, render(dict(b, modifier="DISTINCT"))),
               _q(store, render(dict(b, modifier="REDUCED")), dedup=True),
               _q(store, render(dict(b, modifier=None)), dedup=True)]
         groups = [ga, gb]
+        if not b["ds"]:
+            # group C: the query on an EMPTY graph - a graph of its own, and a graph that shares its store with
+            # a sibling holding the data, seen plainly and through the auditable wrapper
+            shared = Memory()
+            sib = Graph(store=shared, identifier=URIRef("http://e/sibling"))
+            for t in b["default"]:
+                sib.add(tuple(term(x) for x in t))
+            x_id = URIRef("http://e/empty")
+            groups.append([_q(Graph(), text), _q(Graph(store=shared, identifier=x_id), text),
+                           _q(Graph(store=AuditableStore(shared), identifier=x_id), text)])
         # the sequence on ONE prepared object
         try:
             pq = prepareQuery(text)
@@ -589,9 +618,11 @@ class C15Same(Suite):
         b = case["base"]
         _, cs = self.stores(case)
         base = self.base.coq_case(b)
-        n_same = 3 + (0 if b["ds"] else self.N_BACKENDS)
+        n_same = 3 + (0 if b["ds"] else self.N_BACKENDS) + 2
         groups = [c_group(base, [], n_same, "GNormal"),
                   c_group(self.base.coq_case(dict(b, modifier="DISTINCT")), [], 2, "GNormal")]
+        if not b["ds"]:
+            groups.append(c_group(self.base.coq_case(dict(b, default=[])), [], 2, "GNormal"))
         coq_by_graph = [base, self.base.coq_case(cs[1])]
         for gi, ib in case["seq"]:
             if ib is None:
@@ -617,7 +648,7 @@ class C15Same(Suite):
         f = {"dataset": int(case["base"]["ds"]), "steps": len(case["seq"]),
              "observations": sum(len(g) for g in obs),
              "groups_all_spellings_raise": sum(1 for g in obs if g and all("err" in o for o in g)),
-             "init_answers_nonempty": sum(1 for (gi, ib), g in zip(case["seq"], obs[2:]) if ib is not None and g[0].get("sel")),
+             "init_answers_nonempty": sum(1 for (gi, ib), g in zip(case["seq"], obs[(2 if case["base"]["ds"] else 3):]) if ib is not None and g[0].get("sel")),
              "nonempty": int(bool(obs) and bool(obs[0][0].get("sel")))}
         return f
 
